@@ -120,6 +120,19 @@ def directed_cases(ctx):
                           with_qual=True, interleaved_in=False))
         cases.append(dict(argv=["--no-index", "-q", q, "-Q", rng.choice(["10", "25,25"])] + extra + ["-o", "{dir}/o1.fastq", "-p", "{dir}/o2.fastq"],
                           paired=True, reads1=r1, reads2=r2, with_qual=True, interleaved_in=False))
+    # long reads (several hundred to a thousand bases, lengths growing and shrinking from read to read, the two mates independently): the counts
+    # of written reads and base pairs are taken per read length
+    for _ in range(ctx.scale(4, 40)):
+        paired = rng.random() < 0.7
+        r1, r2 = [], []
+        for i in range(rng.randint(8, 14)):
+            l1 = rng.choice([rng.randint(20, 80), rng.randint(400, 700), rng.randint(500, 1100)])
+            l2 = rng.choice([rng.randint(20, 80), rng.randint(480, 560), rng.randint(500, 1200)])
+            s1, s2 = pipe.rs(rng, l1), pipe.rs(rng, l2)
+            r1.append((f"r{i}", s1, "I" * l1))
+            r2.append((f"r{i}", s2, "5" * l2))
+        argv = ["--no-index"] + rng.choice([[], ["-m", "30"], ["-M", "900"], ["-a", "a0=AAAGGGCCC"]]) + ["-o", "{dir}/o1.fastq"] + (["-p", "{dir}/o2.fastq"] if paired else [])
+        cases.append(dict(argv=argv, paired=paired, reads1=r1, reads2=r2 if paired else None, with_qual=True, interleaved_in=False))
     return cases
 
 
